@@ -1023,9 +1023,12 @@ class Variable(CanBehaveLikeAVariable[T]):
                 self._is_false_ = is_false
             yield OperationResult(sources, is_false, self)
         elif self._domain_:
+            # a variable or a literal that stands as a condition itself (entity(x, x.n > 0, False)) holds where its value does
+            stands_as_condition = self._stands_as_condition_
             for v in self._domain_:
+                is_false = stands_as_condition and not bool(v)
                 yield OperationResult(
-                    {**sources, self._id_: HashedValue(v)}, False, self
+                    {**sources, self._id_: HashedValue(v)}, is_false, self
                 )
         elif self._should_be_instantiated_:
             yield from self._instantiate_using_child_vars_and_yield_results_(sources)
